@@ -569,6 +569,7 @@ def rule_view_cast(run):
 
 def rule_views(run):
     from ..rules import views
+    views.run_rule(run, "F-VIEW")   # the trial assignment is checked against the view's bits: the emitted target must be those bits (nested slices)
     views.run_kind_rule(run, "F-VIEW.kind")   # u.signed / s.unsigned reinterpret, they never return the object unconverted
 
 
